@@ -156,6 +156,15 @@ class TriDomain(Domain):
         if k == "call" and e.get("n") == "tribool_from_bool" and e.get("a"):
             c = I.cond(e["a"][0], env)
             return TOP if c is None else ("T" if c else "F")
+        if k == "un" and e.get("op") in ("++", "--") and e.get("a") \
+                and e["a"][0].get("k") == "ref" \
+                and e["a"][0].get("d") == "local" \
+                and type(env.get(e["a"][0]["n"])) is int:
+            # counter updated inside a condition (the engine hands every
+            # state its own environment before evaluating a condition)
+            old = env[e["a"][0]["n"]]
+            env[e["a"][0]["n"]] = old + (1 if e["op"] == "++" else -1)
+            return old if e.get("post") else env[e["a"][0]["n"]]
         if k == "lit" and e.get("t") == "int":
             try:
                 return int(str(e.get("v")), 0)
@@ -277,3 +286,139 @@ def nonmonotone(lv, member):
                        for k2, v2 in b.items()):
                     res.append((a, r, b, r2, k))
     return res
+
+
+# ---------------------------------------------------------------- worlds
+# attainable worlds of a sum / product of two values of given worlds.  Every
+# listed world is attained by some concrete pair (the tables under-approximate
+# on purpose: an alarm needs a world that can really occur).
+def _kinds_add(k1, k2):
+    ks = {k1, k2}
+    if "transc" in ks:
+        return {"int", "rat", "alg", "transc"} if k1 == k2 else {"transc"}
+    if "alg" in ks:
+        return {"int", "rat", "alg"} if k1 == k2 else {"alg"}
+    if ks == {"int"}:
+        return {"int"}
+    if ks == {"int", "rat"}:
+        return {"rat"}
+    return {"int", "rat"}
+
+
+def _kinds_mul(k1, k2):
+    ks = {k1, k2}
+    if "transc" in ks:
+        return {"int", "rat", "alg", "transc"} if k1 == k2 else {"transc"}
+    if "alg" in ks:
+        return {"int", "rat", "alg"} if k1 == k2 else {"alg"}
+    if ks == {"int"}:
+        return {"int"}
+    return {"int", "rat"}
+
+
+def _nonreal_kinds(ks):
+    return {"transc" if k == "transc" else "alg" for k in ks}
+
+
+def world_sum(a, b):
+    if "inf" in (a[0], b[0]):
+        return set() if a[0] == b[0] else {("inf", "inf")}
+    if a[0] == "zero":
+        return {b}
+    if b[0] == "zero":
+        return {a}
+    ks = _kinds_add(a[1], b[1])
+    ra, rb = a[0] != "nonreal", b[0] != "nonreal"
+    out = set()
+    if ra and rb:
+        signs = {a[0]} if a[0] == b[0] else {"neg", "pos"}
+        out = {(s, k) for s in signs for k in ks}
+        if a[0] != b[0] and a[1] == b[1]:
+            out.add(("zero", "int"))
+    elif ra != rb:
+        out = {("nonreal", k) for k in _nonreal_kinds(ks)}
+    else:
+        out = {("nonreal", k) for k in _nonreal_kinds(ks)}
+        out |= {(s, k) for s in ("neg", "pos") for k in ks}
+        if a[1] == b[1]:
+            out.add(("zero", "int"))
+    return out
+
+
+def world_prod(a, b):
+    if "inf" in (a[0], b[0]):
+        return set() if "zero" in (a[0], b[0]) else {("inf", "inf")}
+    if "zero" in (a[0], b[0]):
+        return {("zero", "int")}
+    ks = _kinds_mul(a[1], b[1])
+    ra, rb = a[0] != "nonreal", b[0] != "nonreal"
+    if ra and rb:
+        s = "pos" if a[0] == b[0] else "neg"
+        return {(s, k) for k in ks}
+    if ra != rb:
+        return {("nonreal", k) for k in _nonreal_kinds(ks)}
+    return {("nonreal", k) for k in _nonreal_kinds(ks)} \
+        | {(s, k) for s in ("neg", "pos") for k in ks}
+
+
+def consistent(value, query, world):
+    """a sound sub-answer `value` to `query` about an object in `world`"""
+    q = QUERIES.get(query)
+    if q is None:
+        return None
+    if value == "T":
+        return q(world)
+    if value == "F":
+        return not q(world)
+    return True
+
+
+def unsound_worlds(lv, meta, member, own, op, objects, extra=None):
+    """objects: {object text -> slot number | fixed world}; every tribool
+    variable of a leaf must ask a known query about one of them.  `extra`
+    (optional) maps the boolean atoms of a leaf to the world of one more
+    operand (the numeric coefficient) or None if it cannot interpret them.
+    Yields (assignment, answer, child worlds, offending result world) for
+    definite answers that some attainable value of the node contradicts."""
+    import itertools
+    q_own = QUERIES[own]
+    slots = sorted({v for v in objects.values() if isinstance(v, int)})
+    for a, outs in lv:
+        r = result_of(outs, member)
+        if r not in ("T", "F"):
+            continue
+        cons = []
+        ok = True
+        bools = {k: v for k, v in a.items() if k.startswith("bool:")}
+        first = None
+        if bools:
+            first = extra(bools) if extra else None
+            if first is None:
+                continue
+        for k, v in a.items():
+            if k.startswith("bool:"):
+                continue
+            m = meta.get(k)
+            if m is None or m[0] not in objects or m[1] not in QUERIES:
+                if v != "I":
+                    ok = False
+                    break
+                continue
+            cons.append((objects[m[0]], m[1], v))
+        if not ok:
+            continue
+        sigs = set()
+        for ws in itertools.product(WORLDS, repeat=len(slots)):
+            wmap = dict(zip(slots, ws))
+            if not all(consistent(v, q, wmap[s] if isinstance(s, int) else s)
+                       for s, q, v in cons):
+                continue
+            seq = ([first] if first else []) + list(ws)
+            res = {seq[0]}
+            for w in seq[1:]:
+                res = set().union(*[op(x, w) for x in res]) if res else set()
+            bad = [w for w in res if q_own(w) != (r == "T")]
+            sg = tuple(w[0] for w in seq)
+            if bad and sg not in sigs:
+                sigs.add(sg)
+                yield a, r, seq, sorted(bad)[0]
